@@ -55,7 +55,7 @@ def proto(ctx, scn, cnt, kind, name, stride=1):
     recs = [l for l in open(rec)]
     rejected = 0
     if recs:
-        tres = ctx.tlc("BackendTrace", "BackendTrace.cfg", workers=16, env={"TRACE_FILE": rec}, timeout=3000, heap_gb=12)
+        tres = ctx.tlc_trace("BackendTrace", "BackendTrace.cfg", rec, workers=16, timeout=3000, heap_gb=12)
         if tres.distinct != len(recs):
             raise MachineryError("TLC validated %d of %d call sequences" % (tres.distinct, len(recs)))
         for b in ctx.tuples(tres, "BAD"):
